@@ -1035,6 +1035,10 @@ class CellSquare(shapes.Rectangle, CellBase):
         # super().__init__(first=first, second=second, rotation=rotation, pos=pos, radius=radius, cell_id=cell_id)
         shapes.Rectangle.__init__(self, first, second, rotation)
         CellBase.__init__(self, pos, radius, cell_id, rotation)
+        # The corners `first` and `second` correspond to exactly these
+        # position and radius values
+        self._creation_pos = self.pos
+        self._creation_radius = self.radius
 
     def plot(self, ax: Optional[Any] = None) -> None:  # pragma: no cover
         """
